@@ -52,6 +52,8 @@ int main(int argc, char *argv[]) {
       processor.load("a.bin");
       return processor.run();
     }
+    // Compilation failed (the error has been reported).
+    return 1;
   } catch (const std::exception &e) {
     std::cerr << boost::format("Error: %s\n") % e.what();
     return 1;
